@@ -93,3 +93,45 @@ Example nested_for_instance :
        (init_world [] false None))
   = Ok (VArr [VArr [VInt 1; VInt 1]; VArr [VInt 1; VInt 2]; VArr [VInt 2; VInt 1]; VArr [VInt 2; VInt 2]]).
 Proof. vm_compute. reflexivity. Qed.
+
+(* ---- fuel independence (Proofs/FuelMono.v): once a computation has finished
+   (its outcome is not OutOfFuel), every larger fuel gives the same outcome and
+   the same final world; so "the" result of a program does not depend on the
+   fuel the check happens to run it with *)
+From Ferret Require Import Proofs.FuelMono.
+
+Theorem eval_fuel_independent : forall (f f' : nat) e sc w, (f <= f')%nat ->
+  finished (eval f e sc w) -> eval f' e sc w = eval f e sc w.
+Proof. exact (eval_fuel_mono true). Qed.
+Print Assumptions eval_fuel_independent.
+
+Theorem run_body_fuel_independent : forall (f f' : nat) p w, (f <= f')%nat ->
+  finished (run_body f p w) -> run_body f' p w = run_body f p w.
+Proof. exact (run_body_fuel_mono true). Qed.
+Print Assumptions run_body_fuel_independent.
+
+Theorem run_body_deterministic_in_fuel : forall (f1 f2 : nat) p w,
+  finished (run_body f1 p w) -> finished (run_body f2 p w) ->
+  run_body f1 p w = run_body f2 p w.
+Proof. exact (FuelMono.run_body_deterministic_in_fuel true). Qed.
+Print Assumptions run_body_deterministic_in_fuel.
+
+(* non-vacuity: a run that has finished *)
+Example fuel_independent_instance :
+  let p := {| p_stmts := [SLet (bs "a") (EInt 10)];
+              p_ret := BFor (ForIn (bs "i") None (ERange (EInt 1) (EInt 4))
+                        [CFilter (ECmp CNe (EVar (bs "i")) (EInt 2));
+                         CSort [(EVar (bs "i"), true)]]
+                        (RReturn false (EMath MAdd (EVar (bs "i")) (EVar (bs "a"))))) |} in
+  let w := init_world [] false None in
+  run_body 12 p w = (Ok (VArr [VInt 14; VInt 13; VInt 11]), w) /\ finished (run_body 12 p w).
+Proof. split; [vm_compute; reflexivity|vm_compute; discriminate]. Qed.
+(* regression: on this program (a deep second sort key) the first version of the
+   model answered OutOfDomain with fuels 5..8 and Ok from 9 on, because the
+   OutOfFuel of a non-first sort key was reported as OutOfDomain *)
+Example sort_key_fuel_regression :
+  let w := init_world [] false None in
+  fst (run_body 5 cex_program w) = OutOfFuel /\
+  fst (run_body 8 cex_program w) = OutOfFuel /\
+  run_body 9 cex_program w = (Ok (VArr [VInt 1; VInt 2]), w).
+Proof. repeat split; vm_compute; reflexivity. Qed.
